@@ -69,6 +69,7 @@ if [ "${SEED_IN_REPO:-0}" = 1 ]; then
 else
   export VERIF_REPO="$V" VERIF_EVIDENCE_DIR="$L/evidence"
 fi
+export VERIF_BUDGET_FACTOR=${VERIF_BUDGET_FACTOR:-4}
 for c in "$@"; do
   /verif/check "$c" "$tier" > "$L/check.$c.$tier.log" 2>&1; rc=$?
   sig=$(grep -m3 'signature:' "$L/check.$c.$tier.log" | sed 's/^ *signature: //' | paste -sd';')
